@@ -2297,7 +2297,8 @@ func (wd *world) opSplit(op Op, step int) error {
 			if msg := callErr.Error(); strings.Contains(msg, "failed to broadcast split transaction") {
 				wd.cs.Class("split=error:own-transaction-refused-by-the-pool")
 				if os.Getenv("VERIF_SPLITDIAG") != "" {
-					fmt.Printf("SPLITDIAG lagging=%v %s\n", wd.lagging(), msg)
+					ts := wd.cm.TipState()
+					fmt.Printf("SPLITDIAG lagging=%v h=%d allow=%d require=%d poolv1=%d poolv2=%d %s\n", wd.lagging(), ts.Index.Height, ts.Network.HardforkV2.AllowHeight, ts.Network.HardforkV2.RequireHeight, len(wd.cm.PoolTransactions()), len(wd.cm.V2PoolTransactions()), msg)
 				}
 				if strings.Contains(msg, "spend policy") || strings.Contains(msg, "signature") {
 					return fmt.Errorf("%s: the wallet's own split transaction was refused for its signature: %v", where, callErr)
